@@ -100,6 +100,44 @@ func runC01(ctx *core.Ctx) {
 	} else {
 		piecesWorkload(ctx, 5, []string{"ugc", "pattern-everything", "rawtext"}, c01Judge)
 	}
+	// whole-document policies (html, head, body allowed by name, as the html-email tool does): markup
+	// declarations in front of and inside a complete document
+	whole := [][]spec.Op{spec.CmdHTMLEmailOps(),
+		{{K: spec.KNew}, {K: spec.KAllowElements, Names: []string{"html", "head", "body", "title", "p", "b"}}, {K: spec.KAllowAttrs, Attrs: []string{"lang", "id"}, Scope: "global"}},
+		{{K: spec.KNew}, {K: spec.KAllowElements, Names: []string{"html", "head", "body", "title", "p", "b", "svg", "math"}}, {K: spec.KAllowNoAttrs, Scope: "els", Names: []string{"html", "svg", "math"}}, {K: spec.KComments}},
+		{{K: spec.KNew}, {K: spec.KAllowNoAttrs, Scope: "match", ElRe: `^[a-z]+$`}, {K: spec.KComments}, {K: spec.KSwitch, Names: []string{spec.SwAddSpaces}, B: true}}}
+	decls := []string{"<!DOCTYPE html>", "<!doctype html>", "<!DOCTYPE HTML>", "<!DOCTYPE html >", "<!DOCTYPE  html>", "<!DOCTYPE html PUBLIC \"-//W3C//DTD XHTML 1.0 Strict//EN\" \"http://www.w3.org/TR/xhtml1/DTD/xhtml1-strict.dtd\">",
+		"<!DOCTYPE html SYSTEM \"about:legacy-compat\">", "<!DOCTYPE>", "<!DOCTYPE svg>", "<!DOCTYPE math>", "<!DOCTYPE html5>", "<!DOCTYPE htm>", "<?xml version=\"1.0\"?>", "<![CDATA[x]]>", "<!ELEMENT x>", "<!-- c -->", "<!>", "<!DOCTYPE html [<!ENTITY x \"y\">]>", "\ufeff<!DOCTYPE html>", "\n<!DOCTYPE html>\n"}
+	ctx.Run("whole-documents", len(whole)*ctx.N(40, 400), func(cs *core.Case) {
+		env := NewEnv(whole[cs.Index%len(whole)])
+		r := cs.R
+		lc := core.LocalCounts{}
+		for i := 0; i < 40; i++ {
+			d := decls[r.Intn(len(decls))]
+			body := env.HostileInput(r)
+			var in string
+			switch r.Intn(5) {
+			case 0:
+				in = d
+			case 1:
+				in = d + "<html><head><title>t</title></head><body><p>x</p></body></html>"
+			case 2:
+				in = d + "<html lang=\"en\"><body>" + body + "</body></html>"
+			case 3:
+				in = "<html><body>" + body + d + "</body></html>" + d
+			default:
+				in = d + decls[r.Intn(len(decls))] + body
+			}
+			ob := observe(env, in, i)
+			cs.Eval()
+			lc["whole_document_inputs"]++
+			c01Judge(cs, ob, lc)
+			if ob.Out != "" {
+				cs.Nontrivial(core.Hash("whole", fmt.Sprint(cs.Index%len(whole)), in))
+			}
+		}
+		cs.Flush(lc)
+	})
 	ctx.MinNontrivial(int64(ctx.N(5000, 100000)))
 	ctx.Floor("output_tags_judged", 20000)
 	ctx.Floor("dom_elements_judged", 20000)
